@@ -381,6 +381,13 @@ def inPost (st : Nat) : Prop := st = stREKEYED ∨ st = stDEL_AFTER_REKEY_IKE_SA
 def FullI (base : List Key) (a p : Bytes) (s : HSt) : Prop :=
   SadI (base ++ keysXo s.succ) a p s ∧ SuccWf a p s.succ ∧ (keysXo s.succ ≠ [] → inPost s.me.core.st)
 
+/-- REKEYED, DEL_AFTER_REKEY_IKE_SA_REQ_SENT: the states in which the controller registers the successor -/
+def handed (st : Nat) : Prop := st = stREKEYED ∨ st = stDEL_AFTER_REKEY_IKE_SA_REQ_SENT
+
+/-- … and, where a call returns: a successor that holds CHILD_SAs is about to be registered -/
+def FullH (base : List Key) (a p : Bytes) (s : HSt) : Prop :=
+  FullI base a p s ∧ (keysXo s.succ ≠ [] → handed s.me.core.st)
+
 /-- before the hand-over: the successor (if any) is empty -/
 def G (base : List Key) (a p : Bytes) (s : HSt) : Prop := SadI base a p s ∧ SO a p s
 
@@ -398,6 +405,9 @@ theorem G.full {base : List Key} {a p : Bytes} {s : HSt} (h : G base a p s) : Fu
   intro n hn
   obtain ⟨h1, h2, h3, h4⟩ := h.2.2.2.1 n hn
   exact ⟨h1, h2, by rw [h3, h4]; rfl⟩
+
+theorem G.fullH {base : List Key} {a p : Bytes} {s : HSt} (h : G base a p s) : FullH base a p s :=
+  ⟨h.full, fun hne => absurd h.2.keysXo_nil hne⟩
 
 /-- **the hand-over**: from a state whose successor-to-be (the attribute, or the local candidate) is an empty object with this
     IKE_SA's addresses, the records move over unchanged, the kernel is not asked anything, and the state is REKEYED -/
@@ -441,7 +451,8 @@ theorem handOver_full (base : List Key) (a p : Bytes) (fromTmp : Bool) (s : HSt)
 
 /-- `generate_delete_ike_sa_request` right after the hand-over: cannot raise, leaves DEL_AFTER_REKEY_IKE_SA_REQ_SENT -/
 theorem generateDeleteIkeSaRequest_after (base : List Key) (a p : Bytes) :
-    Hoare (fun s => FullI base a p s ∧ s.me.core.st = stREKEYED) generateDeleteIkeSaRequest (fun _ => FullI base a p) (fun _ => False) := by
+    Hoare (fun s => FullI base a p s ∧ s.me.core.st = stREKEYED) generateDeleteIkeSaRequest
+      (fun _ s => FullI base a p s ∧ s.me.core.st = stDEL_AFTER_REKEY_IKE_SA_REQ_SENT) (fun _ => False) := by
   constructor
   · intro s x t ⟨hf, hst⟩ hm
     unfold generateDeleteIkeSaRequest assertState at hm
@@ -450,11 +461,13 @@ theorem generateDeleteIkeSaRequest_after (base : List Key) (a p : Bytes) :
     simp only [show ((20 : Nat) == 10 || (20 == 20 || false)) = true from by decide, ↓reduceIte] at hm
     cases hm
     obtain ⟨f1, f2, f3⟩ := hf
-    refine ⟨f1.of_safe rfl rfl rfl rfl rfl, f2, ?_⟩
-    intro _
-    simp only [hst]
-    right; left
-    decide
+    refine ⟨⟨f1.of_safe rfl rfl rfl rfl rfl, f2, ?_⟩, ?_⟩
+    · intro _
+      simp only [hst]
+      right; left
+      decide
+    · simp only [hst]
+      decide
   · intro s e t ⟨hf, hst⟩ hm
     unfold generateDeleteIkeSaRequest assertState at hm
     simp only [HM.bind_def, getMe, hst, modCore, HM.modify, HM.pure_def] at hm
@@ -505,8 +518,8 @@ theorem G.keeps {m : HM α} (h1 : Keeps (SadI base a p) m) (h2 : Keeps (SO a p) 
 
 /-- a computation that keeps `G` meets the rekey contract trivially: nothing was handed over -/
 theorem Hoare.of_G {m : HM α} (h1 : Keeps (SadI base a p) m) (h2 : Keeps (SO a p) m) :
-    Hoare (G base a p) m (fun _ => FullI base a p) (G base a p) :=
-  (Hoare.of_keeps (G.keeps base a p h1 h2)).conseq (fun _ h => h) (fun _ _ h => h.full) (fun _ h => h)
+    Hoare (G base a p) m (fun _ => FullH base a p) (G base a p) :=
+  (Hoare.of_keeps (G.keeps base a p h1 h2)).conseq (fun _ h => h) (fun _ _ h => h.fullH) (fun _ h => h)
 
 theorem handOver_hoare (fromTmp : Bool) :
     Hoare (fun s => G base a p s ∧ (if fromTmp then s.tmp else s.succ).isSome = true) (handOver fromTmp)
@@ -531,7 +544,7 @@ theorem Hoare.read_pure {P : HSt → Prop} {E : HSt → Prop} (f : XSa → β) :
 /-- **IKE_SA rekey, responder**: either nothing changes (busy, or the negotiation failed: the candidate is dropped), or the
     CHILD_SAs are handed to the new successor — never a raise after the hand-over -/
 theorem ikeRekeyRequest_full (now : Nat) (m : Msg) (p0 : Proposal) :
-    Hoare (G base a p) (ikeRekeyRequest now m p0) (fun _ => FullI base a p) (G base a p) := by
+    Hoare (G base a p) (ikeRekeyRequest now m p0) (fun _ => FullH base a p) (G base a p) := by
   unfold ikeRekeyRequest
   apply Hoare.bind (Q := fun me s => G base a p s ∧ me.core.myAddr = a ∧ me.core.peerAddr = p)
   · constructor
@@ -539,7 +552,7 @@ theorem ikeRekeyRequest_full (now : Nat) (m : Msg) (p0 : Proposal) :
     · intro s e t _ hm; cases hm
   · intro me
     split
-    · exact Hoare.pure _ (fun s h => h.1.full)
+    · exact Hoare.pure _ (fun s h => h.1.fullH)
     · apply Hoare.bind (Q := fun new s => G base a p s ∧ ObjE a p new)
       · constructor
         · intro s x t hs hm
@@ -568,7 +581,7 @@ theorem ikeRekeyRequest_full (now : Nat) (m : Msg) (p0 : Proposal) :
             · intro payloads
               apply Hoare.bind (Q := fun _ s => FullI base a p s ∧ s.me.core.st = stREKEYED)
               · exact (handOver_hoare base a p true).conseq (fun _ h => h) (fun _ _ h => h) (fun _ h => h)
-              · intro _; exact Hoare.pure _ (fun s h => h.1)
+              · intro _; exact Hoare.pure _ (fun s h => ⟨h.1, fun _ => Or.inl h.2⟩)
           · intro e k hk
             split at hk
             · split at hk
@@ -578,7 +591,7 @@ theorem ikeRekeyRequest_full (now : Nat) (m : Msg) (p0 : Proposal) :
                   · apply Hoare.modify
                     intro s hs
                     exact ⟨hs.1.of_safe rfl rfl rfl rfl rfl, hs.2.1, hs.2.2.1, hs.2.2.2.1, by intro n hn; cases hn⟩
-                  · intro _; exact Hoare.pure _ (fun s h => h.full)
+                  · intro _; exact Hoare.pure _ (fun s h => h.fullH)
                 · cases hk
               · cases hk
             · cases hk
@@ -586,7 +599,7 @@ theorem ikeRekeyRequest_full (now : Nat) (m : Msg) (p0 : Proposal) :
 
 /-- **CREATE_CHILD_SA request**, whatever it asks for -/
 theorem processCreateChildSaRequest_full (now : Nat) (m : Msg) :
-    Hoare (G base a p) (processCreateChildSaRequest now m) (fun _ => FullI base a p) (G base a p) := by
+    Hoare (G base a p) (processCreateChildSaRequest now m) (fun _ => FullH base a p) (G base a p) := by
   unfold processCreateChildSaRequest
   apply Hoare.bind (Hoare.of_keeps (G.keeps base a p (checkInStates_s base a p _) (checkInStates_so a p _)))
   intro _
@@ -607,7 +620,7 @@ theorem processCreateChildSaRequest_full (now : Nat) (m : Msg) :
     delete exchange for this IKE_SA -/
 theorem rekeyTail_full (m : Msg) :
     Hoare (G base a p) (do negotiateIkeResponse Slot.succ m true true; handOver false; let r ← generateDeleteIkeSaRequest; pure (HRes.request r))
-      (fun _ => FullI base a p) (G base a p) := by
+      (fun _ => FullH base a p) (G base a p) := by
   apply Hoare.bind (Q := fun _ s => G base a p s ∧ s.succ.isSome = true)
   · exact Hoare.of_needs (G.keeps base a p (negotiateIkeResponse_s base a p ..) (negotiateIkeResponse_so a p ..))
       (negotiateIkeResponse_hs .succ ..)
@@ -619,13 +632,13 @@ theorem rekeyTail_full (m : Msg) :
     apply Hoare.bind (Q := fun _ s => FullI base a p s ∧ s.me.core.st = stREKEYED)
     · exact (handOver_hoare base a p false).conseq (fun _ h => h) (fun _ _ h => h) (fun _ h => h)
     · intro _
-      apply Hoare.bind (Q := fun _ => FullI base a p)
+      apply Hoare.bind (Q := fun _ s => FullI base a p s ∧ s.me.core.st = stDEL_AFTER_REKEY_IKE_SA_REQ_SENT)
       · exact (generateDeleteIkeSaRequest_after base a p).conseq (fun _ h => h) (fun _ _ h => h) (fun _ h => h.elim)
-      · intro r; exact Hoare.pure _ (fun _ h => h)
+      · intro r; exact Hoare.pure _ (fun _ h => ⟨h.1, fun _ => Or.inr h.2⟩)
 
 /-- **IKE_SA rekey, initiator** -/
 theorem ikeRekeyResponse_full (now : Nat) (m : Msg) (me : XSa) :
-    Hoare (G base a p) (ikeRekeyResponse now m me) (fun _ => FullI base a p) (G base a p) := by
+    Hoare (G base a p) (ikeRekeyResponse now m me) (fun _ => FullH base a p) (G base a p) := by
   unfold ikeRekeyResponse
   split
   · -- INVALID_KE_PAYLOAD: retry
@@ -652,7 +665,7 @@ theorem ikeRekeyResponse_full (now : Nat) (m : Msg) (me : XSa) :
 
 /-- **CREATE_CHILD_SA response**, whichever request it answers -/
 theorem processCreateChildSaResponse_full (now : Nat) (m : Msg) :
-    Hoare (G base a p) (processCreateChildSaResponse now m) (fun _ => FullI base a p) (G base a p) := by
+    Hoare (G base a p) (processCreateChildSaResponse now m) (fun _ => FullH base a p) (G base a p) := by
   unfold processCreateChildSaResponse
   apply Hoare.bind (Hoare.of_keeps (G.keeps base a p (checkInStates_s base a p _) (checkInStates_so a p _)))
   intro _
@@ -908,7 +921,7 @@ def CallOk (base : List Key) (a p : Bytes) (h : HM α) : Prop :=
 section contract
 variable (base : List Key) (a p : Bytes)
 
-theorem callOk_of {h : HM α} (h1 : Hoare (G base a p) h (fun _ => FullI base a p) (G base a p))
+theorem callOk_of {h : HM α} (h1 : Hoare (G base a p) h (fun _ => FullH base a p) (G base a p))
     (h2 : ∀ B c0, Keeps (fun s => SadI B a p s ∧ P2 c0 s) h) : CallOk base a p h := by
   intro s hs htmp
   by_cases hp : inPost s.me.core.st
@@ -930,7 +943,7 @@ theorem callOk_of {h : HM α} (h1 : Hoare (G base a p) h (fun _ => FullI base a 
       have hkids : n.ext.kids = [] := keysX_eq_nil n (by simpa [keysXo, hn] using hk0)
       exact ⟨w1, w2, hkids, by rw [w3, hkids]; rfl⟩
     constructor
-    · intro x t hm; exact h1.ok s x t hg hm
+    · intro x t hm; exact (h1.ok s x t hg hm).1
     · intro e t hm
       have := h1.err s e t hg hm
       exact ⟨this.full, Or.inr this.2.keysXo_nil⟩
@@ -1076,6 +1089,145 @@ theorem generators_frozen (B : List Key) (c0 : Option XSa) (x y : TS) (i now : N
    r2 a p B c0 (asRequest_keeps (generateDeleteIkeSaRequest_s B a p)) (asRequest_keeps (generateDeleteIkeSaRequest_p2 c0)),
    r2 a p B c0 (asRequest_keeps (generateRekeyIkeSaRequest_s B a p now)) (asRequest_keeps (generateRekeyIkeSaRequest_p2 c0 now))⟩
 
+/-- before the hand-over (`G`): a call that returns leaves the invariant with a successor that is empty or about to be
+    registered; a call that raises leaves everything as before the hand-over -/
+theorem request_regime1 (now : Nat) (m : Msg) (h : HM HRes) (hh : requestHandler now m = some h) :
+    Hoare (G base a p) h (fun _ => FullH base a p) (G base a p) := by
+  unfold requestHandler at hh
+  split at hh
+  · cases hh; exact Hoare.of_G base a p (processIkeSaInitRequest_s base a p m) (processIkeSaInitRequest_so a p m)
+  · split at hh
+    · cases hh; exact Hoare.of_G base a p (processIkeAuthRequest_s base a p m) (processIkeAuthRequest_so a p m)
+    · split at hh
+      · cases hh; exact processCreateChildSaRequest_full base a p now m
+      · split at hh
+        · cases hh; exact Hoare.of_G base a p (processInformationalRequest_s base a p m) (processInformationalRequest_so a p m)
+        · cases hh
+
+theorem response_regime1 (now : Nat) (m : Msg) (h : HM HRes) (hh : responseHandler now m = some h) :
+    Hoare (G base a p) h (fun _ => FullH base a p) (G base a p) := by
+  unfold responseHandler at hh
+  split at hh
+  · cases hh; exact Hoare.of_G base a p (processIkeSaInitResponse_s base a p m) (processIkeSaInitResponse_so a p m)
+  · split at hh
+    · cases hh; exact Hoare.of_G base a p (processIkeAuthResponse_s base a p m) (processIkeAuthResponse_so a p m)
+    · split at hh
+      · cases hh; exact processCreateChildSaResponse_full base a p now m
+      · split at hh
+        · cases hh; exact Hoare.of_G base a p (processInformationalResponse_s base a p m) (processInformationalResponse_so a p m)
+        · cases hh
+
+/-- the generators never hand anything over: before the hand-over they keep `G` -/
+theorem generators_regime1 (x y : TS) (i now : Nat) (c : ChildRef) (hard : Bool) :
+    Keeps (G base a p) (asRequest (genAcquireH x y i)) ∧ Keeps (G base a p) (asRequest (genExpireH c hard)) ∧
+    Keeps (G base a p) (asRequest generateDpdRequest) ∧ Keeps (G base a p) (asRequest generateDeleteIkeSaRequest) ∧
+    Keeps (G base a p) (asRequest (generateRekeyIkeSaRequest now)) :=
+  ⟨G.keeps base a p (asRequest_keeps (genAcquireH_s base a p x y i)) (asRequest_keeps (genAcquireH_so a p x y i)),
+   G.keeps base a p (asRequest_keeps (genExpireH_s base a p c hard)) (asRequest_keeps (genExpireH_so a p c hard)),
+   G.keeps base a p (asRequest_keeps (generateDpdRequest_s base a p)) (asRequest_keeps (generateDpdRequest_so a p)),
+   G.keeps base a p (asRequest_keeps (generateDeleteIkeSaRequest_s base a p)) (asRequest_keeps (generateDeleteIkeSaRequest_so a p)),
+   G.keeps base a p (asRequest_keeps (generateRekeyIkeSaRequest_s base a p now)) (asRequest_keeps (generateRekeyIkeSaRequest_so a p now))⟩
+
 end contract
+
+/-! ### two small facts the controller-level lifting needs -/
+
+/-- the generators behind ACQUIRE and EXPIRE never leave the IKE_SA in a state in which the controller would register a successor -/
+def NH (s : HSt) : Prop := ¬ handed s.me.core.st
+
+theorem modSlot_nh (sl) (f : XSa → XSa) (hf : ∀ x, (f x).core.st = x.core.st) : Keeps NH (modSlot sl f) := by
+  unfold modSlot; apply Keeps.modify; intro s h
+  cases sl
+  · simp only [NH] at h ⊢; rw [hf]; exact h
+  · exact h
+  · exact h
+
+macro "keeps_nh" : tactic => `(tactic| repeat' (first
+  | exact Keeps.pure _
+  | exact Keeps.raise _
+  | exact Keeps.read _
+  | exact Keeps.liftE _
+  | exact KeepsOpt.none
+  | apply KeepsOpt.some
+  | (simp only [keepsPost]; done)
+  | (apply modSlot_nh; intro x; simp; done)
+  | (apply Keeps.bind_liftE; intro _ _)
+  | apply Keeps.bind
+  | apply Keeps.tryCatch
+  | intro _
+  | split
+  | (simp only [modCore, modExt, modMe, setState, markBad]; apply Keeps.modify; intro s h;
+     simp_all [NH, handed, XSa.setKids, stREK_IKE_SA_REQ_SENT, stESTABLISHED, stREKEYED, stDELETED, stINIT_RES_SENT, stINIT_REQ_SENT,
+       stAUTH_REQ_SENT, stNEW_CHILD_REQ_SENT, stREK_CHILD_REQ_SENT, stDEL_CHILD_REQ_SENT, stDPD_REQ_SENT, stDEL_IKE_SA_REQ_SENT,
+       stDEL_AFTER_REKEY_IKE_SA_REQ_SENT]; done)
+  | (apply Keeps.modify; intro s h; simp_all [NH]; done)
+  | dsimp only))
+
+@[keepsPost] theorem popVal_nh : Keeps NH popVal := by
+  constructor; intro s h; unfold popVal; split <;> exact h
+@[keepsPost] theorem getSlot_nh (sl) : Keeps NH (getSlot sl) := by
+  cases sl
+  · simp only [getSlot, getMe]; exact Keeps.read _
+  · constructor; intro s h; simp only [getSlot]; split <;> exact h
+  · constructor; intro s h; simp only [getSlot]; split <;> exact h
+@[keepsPost] theorem getPayload_nh (m pt e) : Keeps NH (getPayload m pt e) := Keeps.liftE _
+@[keepsPost] theorem markBad_nh : Keeps NH markBad := by unfold markBad; keeps_nh
+@[keepsPost] theorem popBytes_nh : Keeps NH popBytes := by unfold popBytes; keeps_nh
+@[keepsPost] theorem popBytesOrFail_nh : Keeps NH popBytesOrFail := by unfold popBytesOrFail; keeps_nh
+@[keepsPost] theorem popOk_nh : Keeps NH popOk := by unfold popOk; keeps_nh
+@[keepsPost] theorem popNum_nh : Keeps NH popNum := by unfold popNum; keeps_nh
+@[keepsPost] theorem getMe_nh : Keeps NH getMe := by unfold getMe; keeps_nh
+@[keepsPost] theorem assertState_nh (l) : Keeps NH (assertState l) := by unfold assertState; keeps_nh
+@[keepsPost] theorem generateIkeNegotiation_nh (sl) : Keeps NH (generateIkeNegotiation sl) := by unfold generateIkeNegotiation; keeps_nh
+@[keepsPost] theorem generateChildNegotiation_nh (k) : Keeps NH (generateChildNegotiation k) := by unfold generateChildNegotiation; keeps_nh
+@[keepsPost] theorem generateIkeSaInitRequest_nh (k) : Keeps NH (generateIkeSaInitRequest k) := by unfold generateIkeSaInitRequest; keeps_nh
+@[keepsPost] theorem generateCreateChildSaRequest_nh (k r) : Keeps NH (generateCreateChildSaRequest k r) := by unfold generateCreateChildSaRequest; keeps_nh
+@[keepsPost] theorem generateDeleteChildSaRequest_nh (k) : Keeps NH (generateDeleteChildSaRequest k) := by unfold generateDeleteChildSaRequest; keeps_nh
+@[keepsPost] theorem genAcquireH_nh (x y i) : Keeps NH (genAcquireH x y i) := by unfold genAcquireH; keeps_nh
+@[keepsPost] theorem genExpireH_nh (k h) : Keeps NH (genExpireH k h) := by unfold genExpireH; keeps_nh
+
+/-- a handler that returns returns a reply, a request or nothing — never an error value -/
+def isErr : HRes → Bool
+  | .ikeError _ => true
+  | .otherError _ => true
+  | _ => false
+
+theorem Hoare.triv (m : HM α) : Hoare (fun _ => True) m (fun _ _ => True) (fun _ => True) :=
+  ⟨fun _ _ _ _ _ => trivial, fun _ _ _ _ _ => trivial⟩
+
+abbrev RetOK (h : HM HRes) : Prop := Hoare (fun _ => True) h (fun x _ => isErr x = false) (fun _ => True)
+
+macro "ret_ok" : tactic => `(tactic| repeat' (first
+  | exact Hoare.pure _ (fun _ _ => rfl)
+  | exact Hoare.raise _ (fun _ _ => trivial)
+  | (simp only [keepsRet]; done)
+  | (apply Hoare.bind (Hoare.triv _); intro _)
+  | split
+  | dsimp only))
+
+@[keepsRet] theorem processIkeSaInitRequest_ret (m) : RetOK (processIkeSaInitRequest m) := by unfold processIkeSaInitRequest; ret_ok
+@[keepsRet] theorem processIkeAuthRequest_ret (m) : RetOK (processIkeAuthRequest m) := by unfold processIkeAuthRequest; ret_ok
+@[keepsRet] theorem processCreateChildSaRequest_ret (now m) : RetOK (processCreateChildSaRequest now m) := by
+  unfold processCreateChildSaRequest; ret_ok
+@[keepsRet] theorem processInformationalRequest_ret (m) : RetOK (processInformationalRequest m) := by
+  unfold processInformationalRequest; ret_ok
+@[keepsRet] theorem processIkeSaInitResponse_ret (m) : RetOK (processIkeSaInitResponse m) := by unfold processIkeSaInitResponse; ret_ok
+@[keepsRet] theorem processIkeAuthResponse_ret (m) : RetOK (processIkeAuthResponse m) := by unfold processIkeAuthResponse; ret_ok
+@[keepsRet] theorem ikeRekeyResponse_ret (now m me) : RetOK (ikeRekeyResponse now m me) := by unfold ikeRekeyResponse; ret_ok
+@[keepsRet] theorem childSaResponse_ret (prev m) : RetOK (childSaResponse prev m) := by unfold childSaResponse; ret_ok
+@[keepsRet] theorem processCreateChildSaResponse_ret (now m) : RetOK (processCreateChildSaResponse now m) := by
+  unfold processCreateChildSaResponse; ret_ok
+@[keepsRet] theorem processInformationalResponse_ret (m) : RetOK (processInformationalResponse m) := by
+  unfold processInformationalResponse; ret_ok
+
+theorem requestHandler_ret (now m h) (hh : requestHandler now m = some h) : RetOK h := by
+  unfold requestHandler at hh
+  repeat' split at hh
+  all_goals first | (cases hh; simp only [keepsRet]) | (simp at hh)
+
+theorem responseHandler_ret (now m h) (hh : responseHandler now m = some h) : RetOK h := by
+  unfold responseHandler at hh
+  repeat' split at hh
+  all_goals first | (cases hh; simp only [keepsRet]) | (simp at hh)
 
 end PyIkev2.Impl
